@@ -8,7 +8,7 @@ ROOT = os.path.dirname(os.path.dirname(os.path.abspath(__file__)))
 CLAIMED = {
     "C03": ("exploration",
             "deterministic simulation: seeded GC-decision schedules at every safepoint + poisoned/quarantined old arenas, transcript equality vs never-collect reference",
-            "Each generated module (1-3 evaluations on one Module, embedder set()/extra_value and embedder-triggered Evaluator::garbage_collect in between, final freeze) is run under 5-8 seeded GC decision sequences chosen at every safepoint the evaluator offers; every arena a collection leaves behind is poisoned (and usually quarantined) so a missed root is a deterministic failure; the transcript (incl. error text, host-side reads, frozen exports) must equal the never-collect run byte for byte. Seeded sampling of programs x schedules, not a proof.",
+            "Each generated module (values of every heap-allocated kind incl. type values, records with heap defaults, namespaces, names computed at run time, keyword-only defaults; 1-3 evaluations on one Module, embedder set()/extra_value and embedder-triggered Evaluator::garbage_collect in between, final freeze) is run under 5-8 seeded GC decision sequences chosen at every safepoint the evaluator offers; every arena a collection leaves behind is poisoned (and usually quarantined) so a missed root is a deterministic failure; the transcript (incl. error text, host-side reads, frozen exports) must equal the never-collect run byte for byte. Seeded sampling of programs x schedules, not a proof.",
             "Trusts: collections only happen at PossibleGc safepoints (the decider hook performs the evaluator's own collection); the poison word makes any stale read fail or differ; generator bias is made visible by probes in the evidence.",
             "DESIGN.md §6 C03"),
     "C07": ("fault_enumeration",
@@ -23,17 +23,17 @@ CLAIMED = {
             "DESIGN.md §6 C12"),
     "C15": ("fault_enumeration",
             "deterministic simulation with the evaluator tick counter as simulated clock: budgets enumerated around T and every 1000-tick boundary, cancellation injected at chosen tick positions through a per-tick hook, call-depth limit x depth sweeps on every call path",
-            "For generated loop/call programs whose cost T is measured by a limit-free run (optionally after a prelude evaluation that shifts the 1000-tick phase), every budget in the boundary set must give error <=> cumulative ticks > budget, overshoot <= 1000, a prefix transcript, unchanged behaviour within the limit and a re-usable evaluator; cancellation raised at chosen tick positions (per-tick hook), at the n-th poll, or from inside the program must be honoured within 1000 ticks in the same evaluation, also when the request is raised again on a re-used evaluator after an earlier cancellation; for 16 recursion shapes x limits {1,2,3,5,10,50,200} all depths around the threshold must show a single threshold, StackOverflow as the error, the same threshold on all pure-def call paths, and unbounded recursion must never crash. Tick counts must be repeatable, linear in loop bounds and count every call path (local defs, load()ed frozen defs, lambdas, native callbacks), equal for a frozen and a local copy of the same function.",
+            "For generated loop/call programs whose cost T is measured by a limit-free run (optionally after a prelude evaluation that shifts the 1000-tick phase), every budget in the boundary set must give error <=> cumulative ticks > budget, overshoot <= 1000, a prefix transcript, unchanged behaviour within the limit and a re-usable evaluator; cancellation raised at chosen tick positions (per-tick hook), at the n-th poll, or from inside the program must be honoured within 1000 ticks in the same evaluation, also when the request is raised again on a re-used evaluator after an earlier cancellation; for 16 recursion shapes x limits {1,2,3,5,10,50,200} all depths around the threshold must show a single threshold (also when the limit is configured again on an evaluator that has already evaluated something: refused or accepted, the maximum in force must be the one the embedder was told), StackOverflow as the error, the same threshold on all pure-def call paths, and unbounded recursion must never crash. Tick counts must be repeatable, linear in the bound of every kind of loop (for over list / dict / set / string elements, comprehensions incl. second clause and if, module-level loops, nested and unpacking loops) and count every call path (local defs, load()ed frozen defs, lambdas, native callbacks), equal for a frozen and a local copy of the same function.",
             "T is measured, not assumed; the documented check interval (1000) is the only constant. Native-callback paths are only bounded (they may use several frames per level). check_tick_count_limit()'s result type is not exported, only its presence is checked.",
             "DESIGN.md §6 C15"),
     "C04": ("exploration",
             "deterministic simulation: freeze point chosen at any statement boundary (like a crash point), seeded attack histories from persistent / fresh / second-level importers, in-module pre-freeze observation as the reference model",
-            "A generated exporter module is frozen after a seeded prefix of its statements (optionally with a collection forced at every safepoint). An observation program run inside the module just before freezing is the model; the same observation through an importer after freezing must be identical. A seeded history of attacks (the mutation catalogue x every reachability path found by a depth-bounded walk: exports, elements, dict values, struct/record fields, tuple members, values returned by exported functions and by closures made by load()ed factories, re-exports of a frozen importer, host-side Value::set_at / set_attr) follows: every data-path mutation (methods, item / attribute / augmented assignment incl. += and |=) must error, a copy must be mutable, and after every operation a fresh observer must still see the pre-freeze transcript.",
+            "A generated exporter module is frozen after a seeded prefix of its statements (optionally with a collection forced at every safepoint). An observation program (string forms, content, hashes, slices, membership, equality with fresh equal values and empty literals at top level and inside defs, calls of side-effect-free exported functions incl. defs that read re-assigned globals, slice globals with variable bounds, copy globals and mutate the copies) run inside the module just before freezing is the model; the same observation through an importer after freezing must be identical. A seeded history of attacks (the mutation catalogue x every reachability path found by a depth-bounded walk: exports, elements, dict values, struct/record fields, tuple members, values returned by exported functions and by closures made by load()ed factories, re-exports of a frozen importer, host-side Value::set_at / set_attr) follows: every data-path mutation (methods, item / attribute / augmented assignment incl. += and |=, and their variants that would not change anything: existing key, empty argument, same value) must error, a copy must be mutable, and after every operation a fresh observer must still see the pre-freeze transcript.",
             "Sampling of modules x freeze points x attack histories. The observation program is itself Starlark (same implementation on both sides), so a bug that changes a value identically before and after freeze is not visible here.",
             "DESIGN.md §6 C04"),
     "C13": ("exploration",
             "deterministic simulation: seeded histories over a heap dependency graph with seeded drop order and OS-thread placement, poisoned + quarantined (or really re-used) arenas, content re-check after every operation",
-            "Histories of up to 40 operations (build-and-freeze modules loading from live frozen modules - also pure re-export modules and heaps carrying equal names -, clone, owned handles incl. mapped ones and handles re-homed on a reference-only heap (OwnedFrozen::build), add_to_heap into new modules, import_public_symbols, Globals from frozen values directly or through a grouping FrozenHeap and with one-character names, modules on such Globals, from_globals, drop of any entity), each placed on one of 1-4 real OS threads and run to completion; every arena is poisoned at drop and quarantined (2/3) or really re-used through the per-thread chunk cache (1/3). After every operation every value reachable from every live entity is re-encoded and exported functions re-called; results must equal those recorded at creation.",
+            "Histories of up to 40 operations (build-and-freeze modules loading from live frozen modules - also pure re-export modules and heaps carrying equal names -, clone, owned handles incl. mapped ones and handles re-homed on a reference-only heap (OwnedFrozen::build), add_to_heap into new modules, import_public_symbols, Globals from frozen values directly or through a grouping FrozenHeap and with one-character names, modules on such Globals, from_globals, values kept by the host across freeze while source and frozen module are dropped, importers of scalars only, drop of any entity), each placed on one of 1-4 real OS threads and run to completion; every arena is poisoned at drop and quarantined (2/3) or really re-used through the per-thread chunk cache (1/3). After every operation every value reachable from every live entity is re-encoded and exported functions re-called; results must equal those recorded at creation.",
             "Only safe documented API is used. A forgotten heap edge is detected when the referenced heap is dropped while a dependant is still observed, which the drop-order search makes likely, not certain.",
             "DESIGN.md §6 C13"),
     "C11": ("exploration",
@@ -48,17 +48,17 @@ CLAIMED = {
             "DESIGN.md §6 C20, §11.2"),
     "C14": ("exploration",
             "deterministic simulation with the process environment as the schedule: every entropy source (getrandom via LD_PRELOAD shim, address-space layout, thread, evaluation history) drawn from the seed, byte comparison of transcripts across child processes",
-            "Batches of 24 generated 'observable everything' programs (print, repr/str of all value kinds incl. functions/types/bound methods, dir, hash, json, dict/set/struct iteration, failing tails with suggestions and call stacks, plus type-checker errors/interface/approximations and lints of the same file, did-you-mean suggestions with several equally near candidates, several undefined names) run in 3 (quick) / 6 (thorough) child processes whose entropy is controlled: getrandom/getentropy stream (std RandomState keys), ASLR disabled and replaced by seeded mmap/malloc/env-padding noise, evaluation on main / 1st / n-th spawned thread, seeded program order and warm-up evaluations. All configurations must produce byte-identical transcripts per program; probes confirm the configurations really differed (std HashSet order, stack address).",
+            "Batches of 24 generated 'observable everything' programs (print, repr/str of all value kinds incl. functions/types/bound methods, dir, hash, json, dict/set/struct iteration, failing tails with suggestions and call stacks, plus type-checker errors/interface/approximations and lints of the same file, did-you-mean suggestions with several equally near candidates, several undefined names, argument-binding errors listing names for defs and builtins, set algebra, ties in sorted/max/min, dir() of every kind of value, a never-called def with several type errors; after the evaluation the frozen module's names, documentation members and description in API order) run in 3 (quick) / 6 (thorough) child processes whose entropy is controlled: getrandom/getentropy stream (std RandomState keys), ASLR disabled and replaced by seeded mmap/malloc/env-padding noise, evaluation on main / 1st / n-th spawned thread, seeded program order and warm-up evaluations. All configurations must produce byte-identical transcripts per program; probes confirm the configurations really differed (std HashSet order, stack address).",
             "Covers the entropy sources listed; a source not behind one of these seams (e.g. a clock) would not be varied. The harness renders API results in the order returned.",
             "DESIGN.md §6 C14"),
     "C18": ("exploration",
             "deterministic simulation of a debugger client in lock-step with the evaluation thread (scripted requests, breakpoint changes, detach and late-request faults) plus all profiler / statement-hook configurations, compared with the uninstrumented transcript",
-            "Generated programs with marker statements (module level, defs incl. type-annotated ones, loops, comprehensions, closures) are run uninstrumented (reference), under each of the 13 ProfileModes followed by gen_profile, under a counting statement hook (exactly one continued=false call per executed marker statement) and under the DAP adapter driven by a simulated client in lock-step with the evaluation thread: breakpoints on seeded subsets of marker lines incl. conditional / failing conditions and breakpoint-set changes at stops, requests at every stop (top_frame, stack_trace, scopes, variables, inspect_variable, evaluate incl. failing expressions), step Into/Over/Out, detach at a seeded stop, request after the evaluation ended (must return, not hang). Transcript, result and error text must equal the reference; the sequence of stops must equal the executed markers carrying a breakpoint; variables shown at a stop must equal what the marker then emits; under step-Into every executed marker is stopped at exactly once.",
+            "Generated programs with marker statements (module level, defs incl. type-annotated ones, loops left by break / continue, if-elif-else chains, augmented and unpacking assignments, comprehensions re-using a local's name, closures over re-assigned locals, lambdas and native callbacks, locals shadowing module variables, errors raised several frames deep) are run uninstrumented (reference), under each of the 13 ProfileModes followed by gen_profile, freeze and the retained-memory profile, under a counting statement hook (exactly one continued=false call per executed marker statement) and under the DAP adapter driven by a simulated client in lock-step with the evaluation thread: breakpoints on seeded subsets of marker lines incl. conditional / failing conditions and breakpoint-set changes at stops, requests at every stop (top_frame, stack_trace, scopes, variables, inspect_variable, evaluate incl. failing expressions), step Into/Over/Out, detach at a seeded stop, request after the evaluation ended (must return, not hang). Transcript, result and error text must equal the reference; the sequence of stops must equal the executed markers carrying a breakpoint; variables shown at a stop must equal what the marker then emits; under step-Into every executed marker is stopped at exactly once.",
             "Over/Out are only checked for non-interference. One recorded defect (module-level statements announced twice to hooks/debugger) is modelled and reported as KNOWN-FINDING; any other deviation is a violation.",
             "DESIGN.md §6 C18"),
     "C19": ("exploration",
             "deterministic simulation of an LSP client over the in-memory transport plus a simulated file system with I/O faults behind LspContext; ground truth of name resolution obtained by running the generated documents (tagged bindings)",
-            "The real server loop runs on its own thread over Connection::memory(); the simulated client opens 1-3 generated documents (nested defs / lambdas / comprehensions / loops with deliberate shadowing, parameter defaults, load() between documents, non-ASCII and astral characters before identifiers, LF/CRLF), issues gotoDefinition / hover / completion at every identifier use and at seeded odd positions, changes a document valid -> invalid -> valid, closes, re-opens, queries closed and never-opened documents, and shuts down; the simulated file system injects resolver errors and unreadable / missing loaded files (the loaded document is open in the editor or exists on the simulated disk only); requests are also issued inside the load statement. Every request must get exactly one in-order response and shutdown must terminate (no hang, no panic); every range in every response and diagnostic must denote valid UTF-16 positions of the text it is based on; go-to-definition must answer a binding of the same name in the scope from which the running program actually read the variable (each binding assigns a distinct tag, each use reports the tag it read); evaluation error spans must resolve to the line/character of the text.",
+            "The real server loop runs on its own thread over Connection::memory(); the simulated client opens 1-3 generated documents (nested defs / lambdas / comprehensions with several clauses / loops with deliberate shadowing, parameter defaults that read enclosing variables of the same name, load() between documents, non-ASCII and astral characters before identifiers, LF/CRLF), issues gotoDefinition / hover / completion at every identifier use and at seeded odd positions, changes a document valid -> invalid -> valid, closes, re-opens, queries closed and never-opened documents, opens, changes and closes a document that never parses, asks for definitions beyond the end of lines, and shuts down; the simulated file system injects resolver errors and unreadable / missing loaded files (the loaded document is open in the editor or exists on the simulated disk only); requests are also issued inside the load statement. Every request must get exactly one in-order response and shutdown must terminate (no hang, no panic); every range in every response and diagnostic must denote valid UTF-16 positions of the text it is based on; go-to-definition must answer a binding of the same name in the scope from which the running program actually read the variable (and nothing about another line when the cursor is beyond the end of a line) (each binding assigns a distinct tag, each use reports the tag it read); evaluation error spans must resolve to the line/character of the text.",
             "Message loss/reordering and malformed JSON are not injected. Two recorded defects about astral characters (outgoing columns are character counts) are modelled and reported as KNOWN-FINDING.",
             "DESIGN.md §6 C19"),
 }
